@@ -29,7 +29,8 @@ RULE = (
     "reconstructed (earlier sessions at min(final,k), later ones at min(final,k-1)); every "
     "successful raise must be feasible and every stop must have its next level infeasible in that "
     "state or absent. UNCONTROLLED: active sessions get exactly the station maximum, nothing "
-    "else is scheduled. Near-ties of laxity/processing-time keys (1e-6) and margins within 1e-9 "
+    "else is scheduled - on single invocations and at EVERY call of whole generated simulations "
+    "(one algorithm object across arrivals, departures and satisfied sessions). Near-ties of laxity/processing-time keys (1e-6) and margins within 1e-9 "
     "of zero are discarded / counted. Non-trivial = a constraint binds for a session that is not "
     "last in priority (greedy) or some session is stopped by infeasibility before its own bound (RR)."
 )
